@@ -166,7 +166,8 @@ Inductive obs :=
 | OCell (b : N)                 (* the cell after the call *)
 | OVal (b : N)                  (* value returned by update_value *)
 | OHist (evs : list (hev * N))  (* events the double logged during the call, run-length encoded *)
-| OPanic.
+| OPanic                       (* the call panicked *)
+| OHang.                       (* the call did not return (driver watchdog) *)
 
 Section Seq.
   Variable F : FloatOps.
